@@ -437,7 +437,7 @@ class ExecuteFields(Contract):
     key = 'tartiflette/execution/execute.py::execute_fields'
     property_ids = ('C08', 'C01', 'C02')
     params = ['execution_context', 'parent_type', 'source_value', 'path', 'fields', 'is_introspection_context']
-    timeout_ms = 15000
+    timeout_ms = 60000        # generous: the dict-comprehension obligations take 5-10 s on an idle machine and were seen to exceed 15 s under load
     prune_ms = 1000
 
     def args(self, en, names):
